@@ -1018,7 +1018,9 @@ def correspond(ctx):
     if ctx.thorough():
         stream_cross(ctx, run)
     stream_guards(ctx, run, ctx.thorough())
-    ctx.cov['exhaustive'] = {'rest': True, 'guards': ctx.thorough()}
+    # EVIDENCE.schema: `exhaustive` is a boolean; the per-stream detail goes to `exhaustive_streams`
+    ctx.cov['exhaustive'] = bool(ctx.thorough())
+    ctx.cov['exhaustive_streams'] = {'rest': True, 'guards': ctx.thorough()}
 
 
 def search(ctx):
